@@ -146,6 +146,13 @@ theorem getItem_ok (s : Str) (i : Int) (h : -(s.length : Int) ≤ i ∧ i < s.le
   | none => simp [hd] at h
   | some v => exact ⟨v, rfl, trivial⟩
 
+@[spec] theorem optGet_spec {α : Type} (o : Option α) (h : o.isSome = true) :
+    ⦃⌜True⌝⦄ optGet o ⦃post⟨fun r => ⌜o = some r⌝, fun _ => ⌜False⌝⟩⦄ := by
+  apply triple_of_Ok
+  cases o with
+  | none => simp at h
+  | some v => exact ⟨v, rfl, rfl⟩
+
 /-! ## arithmetic -/
 
 @[spec] theorem pymod_spec (a b : Int) (h : b ≠ 0) :
